@@ -35,7 +35,7 @@ ASSUMPTIONS = [
 THR = 10e-10
 SAMPLE_ALL = True        # how many of the recorded normalize calls are checked one by one (set per tier in run)
 ATOL = 10e-12
-TINY = [1e-9, 2e-9, 5e-10, 1.5e-9, 1e-12, 3e-9, 1e-10, 9.999e-10]
+TINY = [1e-9, 2e-9, 5e-10, 1.5e-9, 1e-12, 3e-9, 1e-10, 9.999e-10, math.nextafter(1e-9, 0.0), math.nextafter(1e-9, 1.0), 1e-9]
 
 
 # ================================================================ generators
@@ -65,7 +65,23 @@ def gen_normalize(rng):
     return {"kind": "normalize", "xs": xs, "spans": spans, "fx": fx}
 
 
+def gen_ortho_bound(rng):
+    """the normalised dot product after the step is exactly the assertion bound 10e-12 (the assertion is `<`), one
+    unit below it, one unit above it: a movable node is orthogonalised to 0, a fixed node with a mass keeps
+    cd = 2^q against ck = p + d, where 10e-12 = p / 2^q as a binary64 number; every operation is exact"""
+    atol = core.frac(ATOL)
+    p, b = atol.numerator, atol.denominator
+    a, m0 = dy(rng, -8, 8, 4), dy(rng, 1, 8, 4)
+    d = rng.choice([-1, 0, 0, 1])
+    ck, cd, mass, fx = [F(1), F(p + d)], [a, F(b)], [m0, F(1)], [False, True]
+    if rng.random() < 0.5:                       # a second movable node at the origin (it adds nothing to either sum)
+        ck, cd, mass, fx = [F(1), F(0), F(p + d)], [a, F(0), F(b)], [m0, dy(rng, 1, 8, 4), F(1)], [False, False, True]
+    return {"kind": "ortho", "coord": [ck, cd], "mass": mass, "dim": 1, "fx": fx, "style": "bound"}
+
+
 def gen_ortho(rng):
+    if rng.random() < 0.06:
+        return gen_ortho_bound(rng)
     n = rng.randrange(2, 7)
     dim = rng.choice([1, 1, 2])
     rows = []
@@ -75,6 +91,8 @@ def gen_ortho(rng):
         else:
             rows.append([dy(rng, -8, 8, 4) for _ in range(n)])
     fx = [rng.random() < 0.25 for _ in range(n)]
+    if rng.random() < 0.03:
+        fx = [True] * n                    # nothing to orthogonalise: 0.0 / 0.0
     zero_fixed = rng.random() < 0.8
     mass = [F(0) if (f and zero_fixed) else dy(rng, 0, 8, 4) if rng.random() < 0.9 else F(0) for f in fx]
     if rng.random() < 0.05:
@@ -137,6 +155,11 @@ def gen_die(rng):
         known = fx[i] or mode == "init" or (mode == "mixed" and rng.random() < 0.5)
         ini[0].append(dy(rng, 0, W, 8) if known else F(-1))
         ini[1].append(dy(rng, 0, H, 8) if known else F(-1))
+        if known and rng.random() < 0.12:
+            # `coord < 0` decides "unknown" (a fixed node must be known); size/2 becomes the coordinate 0, which is
+            # below the 10e-10 threshold of normalize
+            d = rng.randrange(2)
+            ini[d][-1] = rng.choice([F(0), F(0), (W, H)[d] / 2, (W, H)[d], F(-1, 8), F(-1, 2 ** 30)])
     return {"kind": "die", "adj": gen_graph(rng, n), "mass": mass, "W": W, "H": H, "ini": ini, "fx": fx,
             "seed": rng.randrange(0, 1000)}
 
@@ -1054,6 +1077,10 @@ def to_coq(case, obs):
             # "the last call per dimension must produce the returned coordinates" - exactly
             parts.append(gbool(len(t["dims"]) == 2 and t["dims"][0]["last_out"] == t["ret"][0]
                                and t["dims"][1]["last_out"] == t["ret"][1]))
+        elif "raised" in obs and not t["dims"]:
+            # raised before the first normalize (the asserts on the start coordinates): the model must not return either
+            parts.append(f"die_fails {gq(THR)} {W} {H} {gl(obs['radius'])} {gbools(case['fx'])} {gl(case['ini'][0])} "
+                         f"{gl(case['ini'][1])} {gtrial(t)}")
         return " && ".join(f"({p})" for p in parts) if parts else "true"
     if k == "layout":
         parts = sample_checks(obs["trials"])
@@ -1189,7 +1216,8 @@ def oracle(case, obs):
                 cur = st["after"]
         return None
     if k == "rc":
-        dt = F(1, 10 ** 9) * 64
+        # "at its position" up to the library's own notion of equal distances (the distance epsilon in force)
+        dt = max(F(1, 10 ** 9) * 64, 2 * core.frac(obs.get("eps") or 0.0))
         for t in obs["trace"]:
             b, a = t["before"], t["after"]
             if [r[2:] for r in b["rects"]] != [r[2:] for r in a["rects"]]:
